@@ -479,3 +479,91 @@ func runB3(c *core.Ctx) {
 		c.Undecided("jitdec/entry-byte", token.NoPos, "no site needing the entry byte found (needy opcodes: %s)", strings.Join(needy, ","))
 	}
 }
+
+// B4: natives that read the byte under the cursor unconditionally. skip_number starts with
+// `s[*p]` and, when that byte is '-', decrements an unsigned remaining-length counter: called
+// with the cursor at the end of the input it scans memory behind it. Every emitted call of such
+// a native must be reached with IC < IL proven (B1's dataflow; the handler's own entry byte, if
+// it relies on one, is the one B3 establishes).
+
+var b4Natives = []string{"skip_number"} // confirmed by reading native/scanning.h: no length test before the first load
+
+func init() {
+	register(&core.Rule{ID: "B4", Min: 1,
+		Doc: "Preconditions of natives that dereference the cursor before testing the length (skip_number): in every jitdec handler template, at each call of such a native (call helper whose target symbol names it) the bound-check dataflow of B1 proves at least one byte available at IC on every path (handlers that B3 grants an entry byte start with it).",
+		Run: runB4})
+}
+
+func runB4(c *core.Ctx) {
+	p := c.Prog
+	if p.GOARCH != "amd64" {
+		return
+	}
+	rel := "internal/decoder/jitdec"
+	IC, IL := regOf(p, rel, "_IC"), regOf(p, rel, "_IL")
+	if IC == "" || IL == "" {
+		c.Undecided("jitdec/_IC,_IL", token.NoPos, "register variables not found")
+		return
+	}
+	tab, _ := decAvailTable(p)
+	a := newAsmCtx(p, rel, "_Assembler")
+	n := 0
+	for _, fd := range sortedFuncDecls(a.methods()) {
+		if !strings.HasPrefix(fd.Name.Name, "_asm_OP_") {
+			continue
+		}
+		seqs, ok := a.seqs(fd, asmEnv{}, 0)
+		if !ok || anyTrunc(seqs) {
+			continue
+		}
+		op := strings.TrimPrefix(fd.Name.Name, "_asm")
+		if alt, ok := handlerNameExceptions[op]; ok {
+			op = alt
+		}
+		init := int64(0)
+		if tab != nil && tab[op].known && tab[op].req == 1 {
+			init = 1
+		}
+		fn := handlerName(a.pk, fd)
+		calls := 0
+		var bad token.Pos
+		badWhat := ""
+		for _, sq := range seqs {
+			g := buildSeqCFG(sq.Ops)
+			in := boundFlow(g, init, IC, IL)
+			for i, o := range g.ops {
+				if o.Kind != "Helper" || o.Callee == nil || len(o.ArgVals) == 0 || o.ArgVals[0].sym == nil {
+					continue
+				}
+				nm := o.ArgVals[0].sym.Name()
+				hit := ""
+				for _, b := range b4Natives {
+					if strings.HasSuffix(nm, b) {
+						hit = b
+					}
+				}
+				if hit == "" || !strings.HasPrefix(o.Callee.Name(), "call") {
+					continue
+				}
+				calls++
+				if in[i].reached && in[i].avail < 1 && badWhat == "" {
+					bad, badWhat = o.Pos, hit
+				}
+			}
+		}
+		if calls == 0 {
+			continue
+		}
+		n++
+		c.Analysed(fn)
+		cn := fn + "/native-precondition"
+		if badWhat != "" {
+			c.Bad(cn, bad, "native %s is called on a path on which IC < IL has not been established since the cursor last moved: it reads the byte under the cursor before any length test (and wraps its length counter on '-'), so input that ends here makes it scan memory behind the input, and the text it frames is stored into the destination", badWhat)
+		} else {
+			c.OK(cn, fd.Pos(), "%d call(s) of a cursor-dereferencing native, each with a byte proven at IC", calls)
+		}
+	}
+	if n == 0 {
+		c.Undecided("jitdec/native-precondition", token.NoPos, "no call of %s found in the handler templates", strings.Join(b4Natives, ", "))
+	}
+}
